@@ -38,3 +38,326 @@ Section Cost.
     diff_slice A eqv rs a b = Ok script -> (script_cost script <= length a + length b)%nat.
   Proof. intros D. apply script_cost_identity_lemma in D. lia. Qed.
 End Cost.
+
+(** * The common prefix is kept *)
+
+Section Roots.
+  Variable A : Type.
+  Variable eqv : A -> A -> option bool.
+  Variable route_size : Z.
+  Variables a b : list A.
+  Variable size : Z.
+
+  Notation zlen := (zlen A).
+  Notation m := (zlen a).
+  Notation n := (zlen b).
+  Notation delta := (zlen b - zlen a).
+  Notation offset := (zlen a + 1).
+  Notation start_ok := (start_ok A a b).
+  Notation Inv := (Inv A eqv a b).
+  Notation InvUp := (InvUp A eqv a b).
+  Notation InvDown := (InvDown A eqv a b).
+
+  Hypothesis Hmn : m <= n.
+  Variable c0 : Z.
+  Hypothesis LCP : lcp A eqv a b = Ok c0.
+
+  (** every route-table entry without a predecessor is the end of the snake from the origin *)
+  Definition roots_ok (rts : list (Z * Z * Z)) : Prop :=
+    forall i x y, nth_error rts i = Some (x, y, -1) -> x = c0 /\ y = c0.
+
+  Lemma snake_origin c :
+    (if (0 <? m) && (0 <? n)
+     then if (0 <? 0) || (0 <? 0) then Panic else lcp A eqv (skipn (Z.to_nat 0) a) (skipn (Z.to_nat 0) b)
+     else Ok 0) = Ok c -> c = c0.
+  Proof.
+    destruct ((0 <? m) && (0 <? n)) eqn:C.
+    - simpl. rewrite LCP. intros H; inversion H; reflexivity.
+    - intros H; inversion H; subst c. apply andb_false_iff in C.
+      assert (E : a = [] \/ b = []).
+      { destruct C as [C|C]; apply Z.ltb_ge in C; [left; destruct a | right; destruct b]; auto;
+          unfold Model.zlen in C; simpl in C; lia. }
+      destruct E as [-> | ->].
+      + simpl in LCP. inversion LCP; reflexivity.
+      + destruct a; simpl in LCP; inversion LCP; reflexivity.
+  Qed.
+
+  Lemma step_roots st st' k :
+    start_ok st k -> roots_ok (routes st) ->
+    step_k A eqv a b size offset st k = Ok st' -> roots_ok (routes st').
+  Proof.
+    intros SO RO H. unfold step_k in H.
+    apply bind_ok in H as (pa & G1 & H). apply bind_ok in H as (pp & G2 & H).
+    apply bind_ok in H as ([s st1] & SN & H). inversion H; subst st'; clear H.
+    unfold aget in G1, G2.
+    destruct ((0 <=? k - 1 + offset) && (k - 1 + offset <? size)); [|discriminate].
+    destruct ((0 <=? k + 1 + offset) && (k + 1 + offset <? size)); [|discriminate].
+    inversion G1; subst pa; clear G1. inversion G2; subst pp; clear G2.
+    unfold Proofs_Search.start_ok, Proofs_Search.F, Proofs_Search.P in SO.
+    unfold snake in SN.
+    destruct SO as (_ & _ & SR).
+    apply bind_ok in SN as (c & LC & SN). inversion SN; subst s st1; clear SN.
+    simpl routes. intros i x y N.
+    destruct (Nat.lt_ge_cases i (length (routes st))) as [LT|GE].
+    - rewrite nth_error_app1 in N by exact LT. exact (RO _ _ _ N).
+    - rewrite nth_error_app2 in N by exact GE.
+      destruct (i - length (routes st))%nat as [|q]; [|destruct q; discriminate].
+      simpl in N. inversion N as [[N1 N2 N3]]; clear N.
+      destruct SR as [(R1 & R2 & R3)|(R1 & _)]; [|rewrite N3 in R1; lia].
+      rewrite R3 in *. rewrite R2 in *. apply snake_origin in LC. lia.
+  Qed.
+
+  Lemma loop_up_roots p : forall cnt k st st',
+    0 <= p -> - p <= k -> k + Z.of_nat cnt = delta -> InvUp p k st -> roots_ok (routes st) ->
+    loop_up A eqv cnt a b size offset k st = Ok st' -> roots_ok (routes st').
+  Proof.
+    induction cnt as [|cnt IH]; intros k st st' P0 K KC I RO L.
+    - simpl in L. inversion L; subst. exact RO.
+    - simpl in L. apply bind_ok in L as (st1 & ST & L).
+      apply (IH (k + 1) st1 st'); try lia; [| |exact L].
+      + apply (up_step A eqv a b size Hmn p k st st1); [lia|lia|exact I|exact ST].
+      + eapply step_roots; [|exact RO|exact ST]. apply (up_start A eqv a b p); [lia|lia|exact I].
+  Qed.
+
+  Lemma loop_down_roots p : forall cnt k st st',
+    0 <= p -> k - Z.of_nat cnt = delta -> k <= delta + p -> InvDown p k st -> roots_ok (routes st) ->
+    loop_down A eqv cnt a b size offset k st = Ok st' -> roots_ok (routes st').
+  Proof.
+    induction cnt as [|cnt IH]; intros k st st' P0 KC KP I RO L.
+    - simpl in L. inversion L; subst. exact RO.
+    - simpl in L. apply bind_ok in L as (st1 & ST & L).
+      apply (IH (k - 1) st1 st'); try lia; [| |exact L].
+      + apply (down_step A eqv a b size Hmn p k st st1); [lia|lia|exact I|exact ST].
+      + eapply step_roots; [|exact RO|exact ST]. apply (down_start A eqv a b Hmn p); [lia|lia|exact I].
+  Qed.
+
+  Lemma ploop_roots : forall fuel p st st',
+    0 <= p -> Inv p st -> roots_ok (routes st) ->
+    ploop A eqv route_size fuel a b size p st = Ok st' -> roots_ok (routes st').
+  Proof.
+    induction fuel as [|fuel IH]; intros p st st' P0 I RO L; [discriminate|].
+    simpl in L.
+    apply bind_ok in L as (st1 & L1 & L). apply bind_ok in L as (st2 & L2 & L). apply bind_ok in L as (st3 & L3 & L).
+    pose proof (inv_to_up A eqv a b p st P0 I) as IU.
+    assert (RO1 : roots_ok (routes st1)) by (apply (loop_up_roots p (Z.to_nat (delta + p)) (- p) st st1); try lia; assumption).
+    apply (loop_up_ok A eqv a b size Hmn p) in L1; [|lia|lia|lia|exact IU].
+    apply up_to_down in L1; [|lia].
+    assert (RO2 : roots_ok (routes st2)) by (apply (loop_down_roots p (Z.to_nat p) (delta + p) st1 st2); try lia; assumption).
+    apply (loop_down_ok A eqv a b size Hmn p) in L2; [|lia|lia|lia|exact L1].
+    pose proof (step_roots _ _ _ (final_start A eqv a b Hmn p st2 P0 L2) RO2 L3) as RO3.
+    destruct (final_step A eqv a b size Hmn _ _ _ P0 L2 L3) as (EO & LK & LE & NX).
+    destruct ((fp st3 (delta + offset) >=? n) || (Z.of_nat (length (routes st3)) >? route_size)) eqn:C.
+    - inversion L; subst st'. exact RO3.
+    - apply orb_false_iff in C as [C _]. rewrite Z.geb_leb in C. apply Z.leb_gt in C.
+      apply (IH (p + 1) st3 st'); try lia; auto.
+  Qed.
+
+  Lemma chain_nil : forall fuel rts, chain fuel rts (-1) = Ok [].
+  Proof. destruct fuel; reflexivity. Qed.
+
+  (** following the route chain back from any entry ends at the snake from the origin *)
+  Lemma chain_last rts : roots_ok rts -> forall fuel r epc,
+    chain fuel rts r = Ok epc -> r <> -1 -> exists pre, epc = pre ++ [(c0, c0)].
+  Proof.
+    intros RO. induction fuel as [|fuel IH]; intros r epc C NE.
+    - simpl in C. destruct (r =? -1) eqn:R; [apply Z.eqb_eq in R; lia | discriminate].
+    - simpl in C. destruct (r =? -1) eqn:R; [apply Z.eqb_eq in R; lia|].
+      destruct (r <? 0); [discriminate|].
+      destruct (nth_error rts (Z.to_nat r)) as [[[x y] r']|] eqn:N; [|discriminate].
+      apply bind_ok in C as (rest & C & E). inversion E; subst epc; clear E.
+      destruct (Z.eq_dec r' (-1)) as [->|NE'].
+      + rewrite chain_nil in C. inversion C; subst rest.
+        destruct (RO _ _ _ N) as [-> ->]. exists []. reflexivity.
+      + destruct (IH _ _ C NE') as [pre ->]. exists ((x, y) :: pre). reflexivity.
+  Qed.
+End Roots.
+
+Section FirstEdit.
+  Variable A : Type.
+  Variable src : list A.        (* the old sequence: where Common edits take their values *)
+  Variable c0 : Z.
+
+  Notation zlen := (zlen A).
+
+  Lemma firstn_length_self (l : list A) k : firstn (length (firstn k l)) l = firstn k l.
+  Proof.
+    rewrite firstn_length. destruct (Nat.le_ge_cases k (length l)) as [H|H].
+    - rewrite Nat.min_l by exact H. reflexivity.
+    - rewrite Nat.min_r by exact H. rewrite !firstn_all2; auto.
+  Qed.
+
+  Lemma zslice0 (l : list A) e vs : zslice A l 0 e = Ok vs -> vs = firstn (length vs) l /\ zlen vs = e.
+  Proof.
+    intros H. pose proof (zslice_len _ _ _ _ _ H) as L. unfold zslice in H.
+    destruct ((0 <=? 0) && (0 <=? e) && (e <=? zlen l)); [|discriminate].
+    inversion H; subst vs; clear H. change (Z.to_nat 0) with 0%nat. simpl skipn.
+    split; [symmetry; apply firstn_length_self | lia].
+  Qed.
+
+  (** the first recorded edit (last of the latest-first list) keeps a prefix of [src] of length >= c0 *)
+  Definition first_common (es : list (redit A)) : Prop :=
+    exists pre vs, es = pre ++ [mkRedit A RCommon 0 vs] /\ vs = firstn (length vs) src /\ c0 <= zlen vs.
+
+  Lemma extend_first kind from loc es es' :
+    (kind = RCommon -> from = src) -> first_common es ->
+    extend A kind from loc es = Ok es' -> first_common es'.
+  Proof.
+    intros KS (pre & vs & -> & V1 & V2) E. unfold extend in E.
+    assert (FRESH : (ws <- zslice A from loc (loc + 1) ;; Ok (mkRedit A kind loc ws :: pre ++ [mkRedit A RCommon 0 vs])) = Ok es' ->
+                    first_common es').
+    { intros H. apply bind_ok in H as (ws & _ & H). inversion H; subst es'.
+      exists (mkRedit A kind loc ws :: pre), vs. auto. }
+    destruct pre as [|q pre].
+    - cbn [app rk rstart rvals] in E, FRESH.
+      destruct (rkind_eqb RCommon kind && (0 + zlen vs =? loc)) eqn:C; [|exact (FRESH E)].
+      apply andb_true_iff in C as [C1 C2]. apply rkind_eqb_eq in C1. apply Z.eqb_eq in C2.
+      rewrite (KS (eq_sym C1)) in E. apply bind_ok in E as (ws & S & E). inversion E; subst es'.
+      apply zslice0 in S as [S1 S2]. exists [], ws. split; [rewrite <- C1; reflexivity|]. split; [exact S1|lia].
+    - cbn [app rk rstart rvals] in E, FRESH.
+      destruct (rkind_eqb (rk A q) kind && (rstart A q + zlen (rvals A q) =? loc)); [|exact (FRESH E)].
+      apply bind_ok in E as (ws & _ & E). inversion E; subst es'.
+      exists (mkRedit A kind (rstart A q) ws :: pre), vs. auto.
+  Qed.
+
+  Lemma walk_first a b (reverse : bool) tx ty : src = (if reverse then b else a) -> forall fuel s s',
+    first_common (redits A s) -> walk A fuel a b reverse tx ty s = Ok s' -> first_common (redits A s').
+  Proof.
+    intros SRC. induction fuel as [|fuel IH]; intros s s' FC W.
+    - simpl in W. destruct ((px A s <? tx) || (py A s <? ty)); [discriminate|]. inversion W; subst; exact FC.
+    - simpl in W. destruct ((px A s <? tx) || (py A s <? ty)); [|inversion W; subst; exact FC].
+      destruct (ty - tx >? py A s - px A s).
+      + apply bind_ok in W as (es & E & W). apply IH in W; [exact W|]. simpl.
+        eapply extend_first; [|exact FC|exact E]. destruct reverse; discriminate.
+      + destruct (ty - tx <? py A s - px A s).
+        * apply bind_ok in W as (es & E & W). apply IH in W; [exact W|]. simpl.
+          eapply extend_first; [|exact FC|exact E]. destruct reverse; discriminate.
+        * apply bind_ok in W as (es & E & W). apply IH in W; [exact W|]. simpl.
+          eapply extend_first; [|exact FC|exact E]. intros _. symmetry. exact SRC.
+  Qed.
+
+  Lemma record_pts_first a b (reverse : bool) : src = (if reverse then b else a) -> forall pts s s',
+    first_common (redits A s) -> record_pts A a b reverse pts s = Ok s' -> first_common (redits A s').
+  Proof.
+    intros SRC. induction pts as [|[x y] pts IH]; intros s s' FC R.
+    - simpl in R. inversion R; subst; exact FC.
+    - simpl in R. apply bind_ok in R as (s1 & W & R).
+      eapply IH; [|exact R]. eapply walk_first; eauto.
+  Qed.
+
+  (** the walk along the first snake, from the origin to (c0, c0) *)
+  Definition diag_state (es : list (redit A)) (j : Z) : Prop :=
+    (j = 0 /\ es = []) \/
+    (0 < j /\ exists vs, es = [mkRedit A RCommon 0 vs] /\ vs = firstn (length vs) src /\ zlen vs = j).
+
+  Lemma walk_diag a b (reverse : bool) : src = (if reverse then b else a) -> forall fuel s s',
+    px A s = py A s -> 0 <= px A s -> diag_state (redits A s) (px A s) ->
+    walk A fuel a b reverse c0 c0 s = Ok s' ->
+    diag_state (redits A s') (px A s').
+  Proof.
+    intros SRC. induction fuel as [|fuel IH]; intros s s' PXY P0 DS W.
+    - simpl in W. destruct ((px A s <? c0) || (py A s <? c0)); [discriminate|]. inversion W; subst; exact DS.
+    - simpl in W. destruct ((px A s <? c0) || (py A s <? c0)); [|inversion W; subst; exact DS].
+      replace (c0 - c0 >? py A s - px A s) with false in W by (symmetry; rewrite Z.gtb_ltb; apply Z.ltb_ge; lia).
+      replace (c0 - c0 <? py A s - px A s) with false in W by (symmetry; apply Z.ltb_ge; lia).
+      apply bind_ok in W as (es & E & W). apply IH in W; [exact W | simpl; lia | simpl; lia |]. simpl.
+      rewrite <- SRC in E.
+      replace (if reverse then py A s else px A s) with (px A s) in E by (destruct reverse; lia).
+      right. split; [lia|]. unfold extend in E.
+      destruct DS as [[J ES]|(J & vs & ES & V1 & V2)].
+      + rewrite ES in E. rewrite J in *. apply bind_ok in E as (ws & S & E). inversion E; subst es.
+        apply zslice0 in S as [S1 S2]. exists ws. auto.
+      + rewrite ES in E. simpl in E.
+        replace (zlen vs =? px A s) with true in E by (symmetry; apply Z.eqb_eq; lia).
+        apply bind_ok in E as (ws & S & E). inversion E; subst es.
+        apply zslice0 in S as [S1 S2]. exists ws. auto.
+  Qed.
+
+  (** the replace merge never touches a leading Common edit *)
+  Lemma merge_first e : ek e = KCommon -> forall raw acc script,
+    (exists pre, acc = pre ++ [e]) -> merge A raw acc = Ok script -> exists rest, script = e :: rest.
+  Proof.
+    intros EK. induction raw as [|r raw IH]; intros acc script [pre ->] M.
+    - simpl in M. inversion M; subst. rewrite rev_app_distr. simpl. eauto.
+    - simpl in M.
+      destruct pre as [|tail pre].
+      + simpl in M. unfold is_delete in M. rewrite EK in M. rewrite andb_false_r in M.
+        eapply IH; [|exact M]. exists [mk_edit A r]. reflexivity.
+      + simpl in M. destruct (is_add A r && is_delete A tail).
+        * destruct (zlen (eold tail) <? zlen (rvals A r)).
+          -- apply bind_ok in M as (new0 & _ & M). apply bind_ok in M as (rest & _ & M).
+             eapply IH; [|exact M]. eexists (_ :: _ :: pre). reflexivity.
+          -- destruct (zlen (eold tail) >? zlen (rvals A r)).
+             ++ apply bind_ok in M as (old0 & _ & M). apply bind_ok in M as (rest & _ & M).
+                eapply IH; [|exact M]. eexists (_ :: _ :: pre). reflexivity.
+             ++ eapply IH; [|exact M]. eexists (_ :: pre). reflexivity.
+        * eapply IH; [|exact M]. exists (mk_edit A r :: tail :: pre). reflexivity.
+  Qed.
+End FirstEdit.
+
+Section PrefixKept.
+  Variable A : Type.
+  Variable eqv : A -> A -> option bool.
+  Variable route_size : Z.
+
+  Lemma roots_nil c : roots_ok c [].
+  Proof. intros i x y N. destruct i; discriminate. Qed.
+
+  (** When the route table is not exhausted, the longest run of leading elements that the search finds
+      equal (it compares the shorter sequence's elements with the longer one's) is kept: the script starts
+      with a Common edit holding a prefix of the old sequence that is at least as long. *)
+  Lemma common_prefix_kept_lemma a b script c :
+    diff_slice A eqv route_size a b = Ok script ->
+    exhausted A eqv route_size a b = Ok false ->
+    lcp A eqv (if zlen A a >=? zlen A b then b else a) (if zlen A a >=? zlen A b then a else b) = Ok c ->
+    0 < c ->
+    exists vs rest, script = mkEdit KCommon vs vs :: rest /\ vs = firstn (length vs) a /\ c <= zlen A vs.
+  Proof.
+    unfold diff_slice, exhausted. intros D X LC CP.
+    set (reverse := zlen A a >=? zlen A b) in *.
+    set (a' := if reverse then b else a) in *.
+    set (b' := if reverse then a else b) in *.
+    assert (LE : zlen A a' <= zlen A b').
+    { unfold a', b', reverse. destruct (zlen A a >=? zlen A b) eqn:G.
+      - rewrite Z.geb_leb in G. apply Z.leb_le in G. exact G.
+      - rewrite Z.geb_leb in G. apply Z.leb_gt in G. lia. }
+    assert (SRC : a = (if reverse then b' else a')) by (unfold a', b'; destruct reverse; reflexivity).
+    apply bind_ok in X as (st & S & X). inversion X as [X']; clear X.
+    apply negb_false_iff in X'. rewrite Z.geb_leb in X'. apply Z.leb_le in X'.
+    apply bind_ok in D as (raw & C & M).
+    simpl in C. rewrite S in C. simpl in C.
+    apply bind_ok in C as (r & G & C).
+    unfold aget in G. destruct ((0 <=? _) && (_ <? _)) in G; [|discriminate]. inversion G; subst r; clear G.
+    apply bind_ok in C as (epc & CH & C).
+    change (chain (Datatypes.S (length (routes st))) (routes st) (path st (zlen A b' - zlen A a' + (zlen A a' + 1))) = Ok epc) in CH.
+    apply bind_ok in C as (s & R & C).
+    pose proof (search_valid_lemma A eqv route_size a' b' _ LE st epc S X' CH) as V.
+    pose proof (record_pts_ok A eqv a' b' reverse (rev epc) (mkR A 0 0 []) s) as RO.
+    destruct RO as (_ & PX & PY).
+    { unfold inv; simpl. pose proof (zlen_nonneg A a'). pose proof (zlen_nonneg A b').
+      repeat split; try lia; destruct reverse; simpl; try reflexivity; constructor. }
+    { exact V. }
+    { exact R. }
+    replace ((px A s + 1 >? zlen A a') && (py A s + 1 >? zlen A b')) with true in C.
+    2:{ symmetry. apply andb_true_iff. split; apply Z.gtb_lt; lia. }
+    inversion C; subst raw; clear C.
+    (* the chain ends at the first snake *)
+    pose proof S as S1. unfold search in S1.
+    apply (ploop_partial A eqv route_size a' b' _ LE) in S1; [|lia|apply init_inv].
+    destruct S1 as (_ & (_ & L2 & _) & _). unfold Proofs_Search.P in L2.
+    pose proof S as S2. unfold search in S2.
+    apply (ploop_roots A eqv route_size a' b' _ LE c LC) in S2; [|lia|apply init_inv|apply roots_nil].
+    destruct (chain_last c _ S2 _ _ _ CH ltac:(lia)) as [pre EP].
+    rewrite EP, rev_app_distr in R. cbn [rev app record_pts] in R.
+    apply bind_ok in R as (s1 & W & R).
+    pose proof (walk_end A a' b' reverse c c _ _ _ W ltac:(simpl; lia) ltac:(simpl; lia)) as [PX1 PY1].
+    apply (walk_diag A a c a' b' reverse SRC) in W; [|reflexivity|simpl; lia|left; auto].
+    assert (FC : first_common A a c (redits A s1)).
+    { destruct W as [[J _]|(J & vs & ES & V1 & V2)]; [lia|].
+      exists [], vs. rewrite ES. split; [reflexivity|]. split; [exact V1|lia]. }
+    apply (record_pts_first A a c a' b' reverse SRC _ _ _ FC) in R.
+    destruct R as (pre' & vs & ES & V1 & V2).
+    rewrite ES, rev_app_distr in M. cbn [rev app merge] in M.
+    apply (merge_first A (mk_edit A (mkRedit A RCommon 0 vs))) in M; [|reflexivity|exists []; reflexivity].
+    destruct M as [rest ->]. exists vs, rest. auto.
+  Qed.
+End PrefixKept.
